@@ -6,7 +6,8 @@ use crate::exact::{Fp, Rat, P};
 use crate::util::*;
 use easy_ml::linear_algebra;
 use easy_ml::matrices::Matrix;
-use easy_ml::tensors::views::TensorView;
+use easy_ml::tensors::indexing::TensorAccess;
+use easy_ml::tensors::views::{TensorMask, TensorRange, TensorReverse, TensorView};
 use easy_ml::tensors::Tensor;
 
 // ---------------------------------------------------------------------------------------------
@@ -51,7 +52,11 @@ const LIST_VIAS: [&str; 4] = ["into_iter", "cloned", "matrix_column", "tensor_it
 /// iterator sources whose `size_hint` is not the exact remaining length (`mean`, `variance` and
 /// `softmax` take any `Iterator<Item = T>` and must not depend on the hint); usable for every
 /// length, the empty one included
-const HINT_VIAS: [&str; 8] = ["filter", "filter_map", "take_while", "skip_while", "chain", "nohint", "loosehint", "chain_filter"];
+const HINT_VIAS: [&str; 13] = [
+    "filter", "filter_map", "take_while", "skip_while", "chain", "nohint", "loosehint", "chain_filter",
+    // iterators of lazy tensor views showing the data in its logical order
+    "rev_view", "range_view", "mask_view", "access_view", "reorder_view",
+];
 
 fn pick_list_via(g: &mut Gen, n: usize) -> &'static str {
     // half of the time one of the inexact-hint sources
@@ -185,6 +190,65 @@ fn gen_cov_case(g: &mut Gen, e: &str, samples: usize, features: usize) {
         g.op(format!("covt VN q via={}", via));
         g.op(format!("covt VN p via={}", via));
         g.count_n("covt.view.boxed", 4);
+    }
+    // Every kind of lazy view of both bases (feature dimension second in T, first in TT), each
+    // with either dimension as the feature dimension: lazy reorderings (TensorAccess,
+    // TensorTranspose), reversals, renames, ranges and masks of larger bases, and chains of them.
+    // The model works on the logical data the view shows.
+    let big = samples >= 17;
+    let mut views: Vec<(String, &'static str)> = vec![];
+    let mut n = 0;
+    let mut fresh = |p: &str| { n += 1; format!("{}{}", p, n) };
+    for (base, d0, d1, l0, l1) in [("T", sn, fname, samples, features), ("TT", fname, sn, features, samples)] {
+        let v = fresh("A");
+        g.op(format!("v {} {} access {},{}", v, base, d1, d0));
+        views.push((v.clone(), "access"));
+        let x = fresh("X");
+        g.op(format!("v {} {} transpose {},{}", x, base, d1, d0));
+        views.push((x, "transpose"));
+        if big && base == "T" {
+            continue;
+        }
+        let r = fresh("R");
+        let which = [format!("{}", d0), format!("{}", d1), format!("{},{}", d1, d0)][g.rng.below(3)].clone();
+        g.op(format!("v {} {} reverse {}", r, base, which));
+        views.push((r, "reverse"));
+        let ra = fresh("RA");
+        g.op(format!("v {} {} reverse {}", ra, v, d0));
+        views.push((ra, "reverse_of_access"));
+        // range and mask of a larger base with junk around / inside the data
+        let (p0, p1) = (g.rng.below(2) + 1, g.rng.below(2) + 1);
+        let (big0, big1) = (l0 + p0 + 1, l1 + p1);
+        let junk: Vec<String> = (0..big0 * big1).map(|_| val(g, e)).collect();
+        let bname = fresh("B");
+        // the data of `base` sits at rows p0.., columns p1.. of the larger tensor
+        let base_vals: Vec<String> = if base == "T" { data.clone() } else { tr.clone() };
+        let mut bigv = junk.clone();
+        for i in 0..l0 {
+            for j in 0..l1 {
+                bigv[(i + p0) * big1 + (j + p1)] = base_vals[i * l1 + j].clone();
+            }
+        }
+        g.op(format!("t {} {}:{},{}:{} {}", bname, d0, big0, d1, big1, bigv.join(",")));
+        let rg = fresh("G");
+        g.op(format!("v {} {} range {}:{},{}:{}", rg, bname, p0, l0, p1, l1));
+        views.push((rg.clone(), "range"));
+        let ga = fresh("GA");
+        g.op(format!("v {} {} access {},{}", ga, rg, d1, d0));
+        views.push((ga, "access_of_range"));
+        // mask: the first p0 rows and the last row, the first p1 columns are hidden in two steps
+        let m1 = fresh("M");
+        g.op(format!("v {} {} mask 0:{},0:{}", m1, bname, p0, p1));
+        let m2 = fresh("M");
+        g.op(format!("v {} {} mask {}:1,0:0", m2, m1, l0));
+        views.push((m2, "mask"));
+    }
+    for (i, (v, kind)) in views.iter().enumerate() {
+        for feature in [fname, sn] {
+            let via = if *kind == "access" { COVT_VIAS_ACCESS[(i + feature.len()) % 6] } else { COVT_VIAS_BOXED[(i + feature.len()) % 3] };
+            g.op(format!("covt {} {} via={}", v, feature, via));
+            g.count(&format!("covt.view.{}", kind));
+        }
     }
 }
 
@@ -338,6 +402,73 @@ fn gen_large(g: &mut Gen) {
 // execution against the implementation
 // ---------------------------------------------------------------------------------------------
 
+/// `data` through the iterator of a lazy tensor view that shows it in its logical order although
+/// the storage holds it reversed / padded / with a hole / in another dimension order
+fn view_iter_apply<T: Clone + 'static, R>(
+    data: Vec<T>,
+    via: &str,
+    junk: T,
+    f: impl FnOnce(&mut dyn Iterator<Item = T>) -> R,
+) -> R {
+    let n = data.len();
+    if n == 0 {
+        return f(&mut data.into_iter());
+    }
+    match via {
+        "rev_view" => {
+            let stored: Vec<T> = data.into_iter().rev().collect();
+            let t = Tensor::from([("x", n)], stored);
+            let v = TensorView::from(TensorReverse::from(&t, &["x"]));
+            let r = f(&mut v.iter());
+            r
+        }
+        "range_view" => {
+            let mut stored = vec![junk.clone(), junk.clone()];
+            stored.extend(data);
+            stored.push(junk);
+            let t = Tensor::from([("x", n + 3)], stored);
+            let v = TensorView::from(TensorRange::from_all(&t, [Some((2, n))]).expect("range"));
+            let r = f(&mut v.iter());
+            r
+        }
+        "mask_view" => {
+            let h = n / 2;
+            let mut stored: Vec<T> = data[..h].to_vec();
+            stored.push(junk.clone());
+            stored.push(junk);
+            stored.extend_from_slice(&data[h..]);
+            let t = Tensor::from([("x", n + 2)], stored);
+            let v = TensorView::from(TensorMask::from_all(&t, [Some((h, 2))]).expect("mask"));
+            let r = f(&mut v.iter());
+            r
+        }
+        "reorder_view" if n % 2 == 0 => {
+            // storage [d0, d2, d4, …, d1, d3, …] as a:2 x b:n/2, read in the order (b, a)
+            let m = n / 2;
+            let mut stored = vec![];
+            for a in 0..2 {
+                for b in 0..m {
+                    stored.push(data[b * 2 + a].clone());
+                }
+            }
+            let t = Tensor::from([("a", 2), ("b", m)], stored);
+            let v = TensorView::from(TensorAccess::from(&t, ["b", "a"]));
+            let r = f(&mut v.iter());
+            r
+        }
+        _ => {
+            let t = Tensor::from([("a", 1), ("b", n)], data);
+            let v = TensorView::from(TensorAccess::from(&t, ["b", "a"]));
+            let r = f(&mut v.iter());
+            r
+        }
+    }
+}
+
+fn is_view_via(via: &str) -> bool {
+    matches!(via, "rev_view" | "range_view" | "mask_view" | "access_view" | "reorder_view")
+}
+
 /// an iterator over a `Vec` that reports a chosen `size_hint`
 struct Hinted<T> {
     inner: std::vec::IntoIter<T>,
@@ -449,6 +580,7 @@ macro_rules! stats_for {
                         let r = f(&mut t.iter());
                         r
                     }
+                    other if is_view_via(other) => view_iter_apply(data, other, <T as Elem>::parse("7"), f),
                     other => {
                         let mut it = inexact_iter(data, other, <T as Elem>::parse("7"));
                         f(&mut *it)
@@ -545,6 +677,7 @@ fn softmax_fp(vals: &str, via: &str) -> String {
             let t = Tensor::from([("x", n)], data);
             linear_algebra::softmax(t.iter())
         }
+        other if is_view_via(other) => view_iter_apply(data, other, Fp::new(7), |it| linear_algebra::softmax(it)),
         other => linear_algebra::softmax(inexact_iter(data, other, Fp::new(7))),
     });
     match r {
